@@ -359,12 +359,14 @@ def layoff_trap(rng):
     s = rng.choice(gin.SU)
     others = [x for x in gin.SU if x != s]
     up = rng.random() < 0.5
-    r = rng.randrange(4, 11)                       # value of the dual-fit card (4..10)
+    # value of the dual-fit card: every rank that can sit at a run end, the court cards included (a king below the
+    # knocker's T-J-Q with the ace chained behind it -- the ace is high there --, a deuce above 3-4-5 with the ace below)
+    r = rng.randrange(4, 14) if up else rng.randrange(2, 12)
     card = lambda v, su: gin.R[v] + su
     X = card(r, s)
     if up:
         run = [card(r - 3, s), card(r - 2, s), card(r - 1, s)]
-        chain = [card(r + 1, s)] + ([card(r + 2, s)] if rng.random() < 0.5 else [])
+        chain = [card(r + 1, s)] + ([card(r + 2, s)] if r + 2 <= 14 and rng.random() < 0.5 else [])
     else:
         run = [card(r + 1, s), card(r + 2, s), card(r + 3, s)]
         chain = [card(r - 1, s)] + ([card(r - 2, s)] if r - 2 >= 1 and rng.random() < 0.5 else [])
@@ -372,8 +374,13 @@ def layoff_trap(rng):
     used = set(run + kset + chain + [X])
     # a third meld of low cards in another suit and one low card of deadwood
     s3 = rng.choice(others)
-    third = [c for c in (card(1, s3), card(2, s3), card(3, s3))]
-    if used & set(third):
+    third = None
+    for lo3 in (1, 5, 9, 6):
+        cand = [card(lo3, s3), card(lo3 + 1, s3), card(lo3 + 2, s3)]
+        if not (used & set(cand)):
+            third = cand
+            break
+    if third is None:
         return None
     used |= set(third)
     lows = [c for c in gin.CARDS if c not in used and gin.RV[c[0]] <= 5]
